@@ -321,3 +321,56 @@ def call_c10(case):
         probes.extend(r["probe"])
     return {"runs": runs, "probe": probes, "clock0": clock0, "clock1": dt_to_list(_dt.datetime.now()),
             "unbound": list(_PROBE["unbound"]), "out": runs["outN"], "exc": ""}
+
+
+# --------------------------------------------------------------------------- C15: calendar parsers
+def call_calendar(case):
+    """case: {cal: jalali|hijri, s} -> out, period, exc, latin tokens (projection with the parser's own tables)"""
+    if case["cal"] == "jalali":
+        from dateparser.calendars.jalali import JalaliCalendar as C
+        from dateparser.calendars.jalali_parser import jalali_parser as P
+    else:
+        from dateparser.calendars.hijri import HijriCalendar as C
+        from dateparser.calendars.hijri_parser import hijri_parser as P
+    res = {"out": [], "period": "", "exc": "", "toks": []}
+    try:
+        r = C(case["s"]).get_date()
+        if r is not None and r["date_obj"] is not None:
+            res["out"] = dt_to_list(r["date_obj"])
+            res["period"] = r["period"] or ""
+    except BaseException as e:  # noqa
+        res["exc"] = type(e).__name__
+    try:
+        from dateparser.parser import tokenizer
+        latin = P.to_latin(case["s"])
+        months = list(P._months.keys()) if P._months else []
+        wds = list(P._weekdays.keys()) if P._weekdays else []
+        toks = []
+        for tok, typ in tokenizer(latin).tokenize():
+            tok = tok.strip()
+            if typ == 0:
+                if ":" in tok:
+                    parts = tok.split(":")
+                    if any(p == "" for p in parts):
+                        raise ValueError
+                    toks.append(_tok("c", parts=[(len(p), int(p)) for p in parts]))
+                else:
+                    toks.append(_tok("n", len(tok), int(tok)))
+            elif typ == 1:
+                m = _MER.search(tok)
+                mer = m.group() if m else ""
+                if tok in months:
+                    toks.append(_tok("a", val=months.index(tok) + 1, cls="month", mer=mer))
+                elif tok.title() in wds:
+                    toks.append(_tok("a", val=wds.index(tok.title()), cls="weekday", mer=mer))
+                elif tok in _SKIP:
+                    toks.append(_tok("a", cls="skip", mer=mer))
+                else:
+                    toks.append(_tok("a", cls="other", mer=mer))
+            else:
+                toks.append(_tok("s", isdot=(tok == "."), hasdot=("." in tok)))
+        res["toks"] = toks
+        res["latin"] = latin
+    except Exception:
+        res["toks"] = []
+    return res
